@@ -129,6 +129,21 @@ nobs = {'dres': dres, 'wres': wres, 'dcalls': len(dargs), 'wcalls': len(wargs), 
 expect('null: wire argument changed', 'TraceNull', {'case': nc, 'obs': nobs}, {'case': nc, 'obs': dict(nobs, wargs=[10, 99])}, 'ArgsWire')
 expect('null: called twice directly', 'TraceNull', {'case': nc, 'obs': nobs}, {'case': nc, 'obs': dict(nobs, dcalls=2)}, 'OnceEach')
 
+# ---- C03: TraceFlat on a real flat request
+from harness import flat as F
+fd = F.export(ctx)
+flc = [c for c in fd['cases'] if c['id'] == 'F3' and len(c['args']) == 1 and c['args'][0]['n'] == 'a'][0]
+fcfg = dict(delim='.', idx='contig', order='asc', strict=False)
+flw = F.World(flc, fcfg, 'soft')
+fpairs = F.request_pairs(flc, fcfg)
+flw.send(flc, fpairs)
+flobs = {'pairs': [list(p_) for p_ in fpairs], 'ncalls': len(flw.seen), 'args': flw.delivered(flc)}
+frec = {'kind': 'req', 'c': flc, 'cfg': fcfg, 'obs': flobs}
+fbad = copy.deepcopy(frec); fbad['obs']['pairs'] = fbad['obs']['pairs'][:-1]
+expect('flat: a pair not sent', 'TraceFlat', frec, fbad, 'ReqIsSpec')
+fbad = copy.deepcopy(frec); fbad['obs']['ncalls'] = 0
+expect('flat: function not called', 'TraceFlat', frec, fbad, 'Delivered')
+
 import shutil
 shutil.rmtree(ctx.work, ignore_errors=True)
 print('binding self-test: %s' % ('all corruptions rejected' if ok else 'SOMETHING WAS ACCEPTED THAT SHOULD NOT BE'))
